@@ -156,6 +156,7 @@ func (d c12) Execute(c *core.Case) *core.Result {
 	// the spec currently at the staging tip, if the simulator knows it
 	specAt := map[string]*world.PolicySpec{}
 	var applied *world.PolicySpec
+	appliedAt := "" // the commit the model's applied spec was published as
 	defer func() {
 		if res.Digest == "" {
 			res.Digest = core.HashStrings(strings.Join(seq, ","), refDigest(w.St))
@@ -284,16 +285,23 @@ func (d c12) Execute(c *core.Case) *core.Result {
 			if spec == nil {
 				applied = nil
 			}
+			if P != "" && P != appliedAt {
+				// the state being replaced is not the one the last successful Apply published:
+				// tampering put another commit on the policy ref together with its entry
+				// (a consistent pair is indistinguishable from an Apply). Judge against what
+				// that commit holds, if the simulator knows.
+				applied = specAt[P]
+			}
 			if spec != nil && (applied != nil || P == "") {
 				if df, _ := stateDefects(applied, spec); len(df) > 0 {
 					f2 := append(append([]string{}, feats...), df...)
 					res.Violate("C12", "invalid-state-published", fmt.Sprintf("Apply published a policy state that breaks the chain of trust against the state it replaces: %s", strings.Join(df, ", ")), op.ID, f2...)
-					applied = spec
+					applied, appliedAt = spec, P2
 					break
 				}
-				applied = spec
+				applied, appliedAt = spec, P2
 			} else {
-				applied = spec
+				applied, appliedAt = spec, P2
 			}
 			// writer <-> verifier link: what Apply published must load and verify
 			lo := world.Op{ID: 7000 + i, Kind: "loadPolicy", Actor: 3}
